@@ -5,6 +5,8 @@ import (
 	"sort"
 	"strings"
 
+	"verif/model"
+
 	"pgregory.net/rapid"
 )
 
@@ -18,6 +20,26 @@ var Scalars = map[string]any{"s": "str", "n": 1.5, "b": true, "a": []any{1.0, ma
 // refused by the loader with probability refusePct/100.
 func Break(t *rapid.T, c GraphCase, permille int, refusePct int) (GraphCase, []string) {
 	out := GraphCase{Root: c.Root, Docs: map[string]string{}}
+	// pointers that designate something in SOME document: written fragment-only in another document they
+	// are dangling there unless that document happens to have the same member (the model decides)
+	foreign := map[model.Kind][]string{}
+	kindAt := map[model.Pos]model.Kind{}
+	{
+		g := c.Graph()
+		var all []string
+		for u := range c.Docs {
+			all = append(all, u)
+		}
+		sort.Strings(all)
+		for _, u := range all {
+			g.Walk(g.TopElements(u), func(p model.Pos, k model.Kind, n any, isRef bool, ref string) {
+				kindAt[p] = k
+				if len(foreign[k]) < 100 {
+					foreign[k] = append(foreign[k], fragmentOf(p.Ptr, false))
+				}
+			})
+		}
+	}
 	urls := make([]string, 0, len(c.Docs))
 	for u := range c.Docs {
 		urls = append(urls, u)
@@ -32,7 +54,7 @@ func Break(t *rapid.T, c GraphCase, permille int, refusePct int) (GraphCase, []s
 			case map[string]any:
 				if r, ok := m["$ref"].(string); ok {
 					if Permille(t, "break", permille) {
-						switch Uniform(t, "fault", 12) {
+						switch Uniform(t, "fault", 14) {
 						case 0:
 							m["$ref"] = r + "/nowhere"
 						case 1:
@@ -49,6 +71,15 @@ func Break(t *rapid.T, c GraphCase, permille int, refusePct int) (GraphCase, []s
 							m["$ref"] = "#/definitions/no~1such~0name"
 						case 7:
 							m["$ref"] = c.Root + "#/x-scalars/a/7"
+						case 12, 13:
+							// the same pointer text as somewhere else (e.g. as a $ref of the root that is known to be
+							// circular), but in a document where it may designate nothing
+							// (of the kind the original $ref designates, so that the graph stays well-kinded)
+							if tp, err := model.Resolve(u, r); err == nil {
+								if k, known := kindAt[tp]; known && len(foreign[k]) > 0 {
+									m["$ref"] = foreign[k][Uniform(t, "foreign", len(foreign[k]))]
+								}
+							}
 						case 8, 9, 10, 11:
 							// a known keyword that the target most probably does not carry: on a typed
 							// root the pointer lands on an unset member (if the target does carry it, the
